@@ -1086,6 +1086,9 @@ class C10(Prop):
                 if g.chance(0.08):
                     a["version_tag"] = g.pick([8, 9, 12, 0, 255])
                 out.append(mk("a", n, "master", hx(gen.render_master(a, g)), kind="master"))
+        # a fractional EXTINF asks for protocol version 3 however small the fraction is: durations with a sub-microsecond part, alone
+        for j, dtxt in enumerate(["4.0000005", "9.000000125", "1.000000999", "0.000000001", "7.000001", "3.0000000005", "5.000000001"]):
+            out.append(mk("f", 200000 + j, "media", hx("#EXTM3U\n#EXT-X-TARGETDURATION:10\n#EXTINF:%s,\ns.ts\n" % dtxt), kind="media"))
         # every in-stream id on its own (SERVICE1..63 ask for protocol version 7, CC1..4 do not): nothing else in the playlist
         # raises the version
         ids = ["CC%d" % j for j in range(1, 5)] + ["SERVICE%d" % j for j in range(1, 64)]
@@ -1148,6 +1151,21 @@ class C11(Prop):
                 if n % 7 == 3:
                     # over-long / repetitive KEYFORMATVERSIONS lists, mutated texts
                     text = text.replace('URI="', 'KEYFORMATVERSIONS="%s",URI="' % "/".join(str(g.pick([1, 2, 3])) for _ in range(g.r.randint(9, 12))), 1) if g.chance(0.5) else gen.mutate(text, g)
+                if n % 10 == 1:
+                    # keys of one format around an EXT-X-MAP (one before it, another behind it), an older key of that format in effect
+                    # before and coming back later, a key of a second format throughout: what the writer's key set holds must not
+                    # depend on the order a hash set happens to iterate in
+                    fa, fb = g.r.sample([None, "com.apple.streamingkeydelivery", "urn:uuid:edef8ba9-79d6-4ace-a3c8-27dcd51d21ed", "com.example.drm"], 2)
+                    def kk(u, f):
+                        return {"method": "AES-128" if f is None else "SAMPLE-AES", "uri": u, "iv": None, "format": f, "versions": None}
+                    def sg(j, keys, mp=None):
+                        return {"keys_before": keys, "map": mp, "uri": "m%d.ts" % j, "dur": "9.5", "title": None, "disc": False, "pdt": None, "range": None, "daterange": None}
+                    k1, k2, k3, other = kk("k1", fa), kk("k2", fa), kk("k3", fa), kk("o", fb)
+                    a = {"target": 10, "mseq": None, "dseq": None, "ptype": None, "iframes": False, "indep": False, "start": None, "endlist": True,
+                         "version_tag": None, "unknown": [], "d17": False,
+                         "segs": [sg(0, [other, k1] if g.chance(0.5) else [k1, other]), sg(1, [k2, k3], {"uri": "init.mp4", "range": None, "pos": 1}),
+                                  sg(2, [k1]), sg(3, []), sg(4, [k2] if g.chance(0.5) else [])]}
+                    text = gen.render_media(a, None)
                 out.append(mk("m", n, "repeat_media", hx(text), 8, base="media", model=False))
                 out.append(mk("M", n, "media", hx(text), base="media"))
                 if n % 3 == 0:
